@@ -223,7 +223,9 @@ func (c *Ctx) rulesR5auto(a *coreAnchors) {
 				"the blocked-by loop ranges over "+other+", not over Machine.activeStates alone: states that are not active (yet) keep an Auto state from being called")
 		}
 	}
-	visit(na)
+	for _, hf := range c.hostedFns(na) {
+		visit(hf)
+	}
 	if n < 1 {
 		c.undecided("C07.blk: no blocked-by loop over State.Remove found in NewAutoMutation")
 	}
@@ -955,43 +957,67 @@ func (c *Ctx) rulesR5settle() {
 		c.undecided("C06.settle: ProcessWhen / WhenBinding.Matched / Total not found")
 		return
 	}
-	fromParams := func(v ssa.Value) bool {
+	// derives from a slice parameter of ProcessWhen itself; a parameter of a
+	// hosted helper stands for what is passed at its only call site
+	var fromParamsD func(v ssa.Value, d int) bool
+	fromParamsD = func(v ssa.Value, d int) bool {
+		// the result of a hosted helper: what its returns derive from
+		if call, ok := v.(*ssa.Call); ok && d < 3 {
+			if callee := call.Call.StaticCallee(); callee != nil && callee != f && len(callee.Blocks) > 0 && c.hostedBy(callee, f) {
+				for _, r := range returnsOf(callee) {
+					for _, rv := range retVals(r) {
+						if fromParamsD(rv, d+1) {
+							return true
+						}
+					}
+				}
+				return false
+			}
+		}
 		return derives(v, func(x ssa.Value) bool {
 			p, ok := x.(*ssa.Parameter)
 			if !ok {
 				return false
 			}
+			if p.Parent() != f {
+				if av := c.hostedArg(p, f); av != ssa.Value(p) && d < 3 {
+					return fromParamsD(av, d+1)
+				}
+			}
 			_, isSl := p.Type().Underlying().(*types.Slice)
 			return isSl
 		})
 	}
-	loops := rangeLoops(f)
+	fromParams := func(v ssa.Value) bool { return fromParamsD(v, 0) }
 	n := 0
-	for _, b := range f.Blocks {
-		for _, ins := range b.Instrs {
-			bo, ok := ins.(*ssa.BinOp)
-			if !ok {
-				continue
-			}
-			switch bo.Op {
-			case token.LSS, token.GEQ, token.GTR, token.LEQ, token.EQL, token.NEQ:
-			default:
-				continue
-			}
-			m1 := loadOfField(bo.X) == fM || loadOfField(bo.Y) == fM
-			t1 := loadOfField(bo.X) == fT || loadOfField(bo.Y) == fT
-			if !m1 || !t1 {
-				continue
-			}
-			n++
-			inside := ""
-			for _, l := range loops {
-				if l.body[b] && l.x != nil && fromParams(l.x) {
-					inside = render(l.x)
+	for _, hf := range c.hostedFns(f) {
+		loops := rangeLoops(hf)
+		for _, b := range hf.Blocks {
+			for _, ins := range b.Instrs {
+				bo, ok := ins.(*ssa.BinOp)
+				if !ok {
+					continue
 				}
+				switch bo.Op {
+				case token.LSS, token.GEQ, token.GTR, token.LEQ, token.EQL, token.NEQ:
+				default:
+					continue
+				}
+				m1 := loadOfField(bo.X) == fM || loadOfField(bo.Y) == fM
+				t1 := loadOfField(bo.X) == fT || loadOfField(bo.Y) == fT
+				if !m1 || !t1 {
+					continue
+				}
+				n++
+				inside := ""
+				for _, l := range loops {
+					if l.body[b] && l.x != nil && fromParams(l.x) {
+						inside = render(l.x)
+					}
+				}
+				c.check(inside == "", "C06.settle", fmt.Sprintf("ProcessWhen: completion test#%d runs after all deltas were applied", n), bo.Pos(),
+					"Matched is compared with Total inside the loop over "+inside+" (the transition's activated/deactivated states): the binding is judged after a part of the transition only")
 			}
-			c.check(inside == "", "C06.settle", fmt.Sprintf("ProcessWhen: completion test#%d runs after all deltas were applied", n), bo.Pos(),
-				"Matched is compared with Total inside the loop over "+inside+" (the transition's activated/deactivated states): the binding is judged after a part of the transition only")
 		}
 	}
 	if n < 1 {
@@ -1185,8 +1211,8 @@ func (c *Ctx) standIn(root *ssa.Function, ins ssa.Instruction) ssa.Instruction {
 		if g == root {
 			return cur
 		}
-		cs, vals := c.allCallersOf(g)
-		if len(cs) != 1 || len(vals) != 0 {
+		cs, host := c.hostSites(g, true)
+		if host == nil || len(cs) != 1 {
 			return nil
 		}
 		cur = cs[0].Instr
